@@ -1048,6 +1048,18 @@ impl World {
         let now_us = self.now_us();
         let napps = self.stations[i].apps.len();
         for a in 0..napps {
+            // late DpMaster::add()
+            while let Some(at) = self.stations[i].apps[a].dp().and_then(|d| d.next_add_at()) {
+                if now_us < at {
+                    break;
+                }
+                let Some(k) = self.stations[i].apps[a].dp_mut().and_then(|d| d.add_next()) else { break };
+                self.stats.inc("user.add_peripheral_while_running");
+                if self.stations[i].outstanding.map(|(oa, _)| oa == a).unwrap_or(false) {
+                    self.stats.inc("user.add_peripheral_request_in_flight");
+                }
+                self.notify_user(i, &UserAct::AddPeripheral { app: a, periph: k });
+            }
             let (ucfg, nper) = match self.stations[i].apps[a].dp() {
                 Some(d) => (d.cfg.user.clone(), d.handles.len()),
                 None => continue,
